@@ -50,6 +50,29 @@ type seqState struct {
 	// specified once the check has run, so nothing is compared while pending; removes and clears
 	// are applied to both sides, immediate adds are skipped.
 	pending bool
+	// provider VALUES handed to the graph so far, per (node, dependency list): every third
+	// registration of an identical declaration hands in the very same value again (a module
+	// listed twice passes the same descriptor twice)
+	provs map[string]graph.Provider
+	ptags map[string]int
+	nreg  int
+}
+
+// provider returns the provider value (and its tag) for this registration.
+func (s *seqState) provider(o Op) (graph.Provider, int) {
+	if s.provs == nil {
+		s.provs, s.ptags = map[string]graph.Provider{}, map[string]int{}
+	}
+	key := fmt.Sprint(o.Self, o.Deps)
+	s.nreg++
+	if p, ok := s.provs[key]; ok && s.nreg%3 != 0 {
+		s.stats["same_provider_value_registered_again"]++
+		return p, s.ptags[key]
+	}
+	s.tag++
+	p := NewProvider(s.u, o.Self, o.Deps, s.tag)
+	s.provs[key], s.ptags[key] = p, s.tag
+	return p, s.tag
 }
 
 func newSeqState(u []Ident) *seqState {
@@ -73,11 +96,11 @@ func (s *seqState) apply(o Op) (clause, msg string) {
 			s.stats["remove_while_deferred_pending"]++
 		}
 	case "deferonly":
-		s.tag++
-		if err := s.g.AddProviderDeferred(NewProvider(s.u, o.Self, o.Deps, s.tag)); err != nil {
+		prov, tag := s.provider(o)
+		if err := s.g.AddProviderDeferred(prov); err != nil {
 			return "defer-error", "AddProviderDeferred failed: " + err.Error()
 		}
-		s.r.Add(o.Self, o.Deps, s.tag)
+		s.r.Add(o.Self, o.Deps, tag)
 		s.pending = true
 		s.stats["defer_pending"]++
 	case "detect":
@@ -99,11 +122,11 @@ func (s *seqState) apply(o Op) (clause, msg string) {
 			s.stats["add_skipped_on_cyclic"]++
 			return "", ""
 		}
-		s.tag++
+		prov, tag := s.provider(o)
 		_, replacing := s.r.nodes[o.Self]
 		trial := s.r.Clone()
-		trial.Add(o.Self, o.Deps, s.tag)
-		err := s.g.AddProvider(NewProvider(s.u, o.Self, o.Deps, s.tag))
+		trial.Add(o.Self, o.Deps, tag)
+		err := s.g.AddProvider(prov)
 		if trial.Cyclic() {
 			s.stats["add_rejected_expected"]++
 			if err == nil {
@@ -128,11 +151,11 @@ func (s *seqState) apply(o Op) (clause, msg string) {
 		}
 		s.stats["add"]++
 	case "defer":
-		s.tag++
-		if err := s.g.AddProviderDeferred(NewProvider(s.u, o.Self, o.Deps, s.tag)); err != nil {
+		prov, tag := s.provider(o)
+		if err := s.g.AddProviderDeferred(prov); err != nil {
 			return "defer-error", "AddProviderDeferred failed: " + err.Error()
 		}
-		s.r.Add(o.Self, o.Deps, s.tag)
+		s.r.Add(o.Self, o.Deps, tag)
 		err := s.g.DetectCycles() // the documented completion of deferred adds
 		if (err != nil) != s.r.Cyclic() {
 			return "detect-cycles", fmt.Sprintf("DetectCycles()=%v, reference cyclic=%v", err, s.r.Cyclic())
